@@ -69,16 +69,22 @@ def opt_flag(o: L.Opt) -> str:
     return "--" + o.name.replace("_", "-")
 
 
+LIST_KINDS = ("ranges", "ranges2d", "autoInts", "tuples", "enums", "dict")
+
+
 def cli_args(o: L.Opt, conc) -> list[str]:
     if o.kind.name == "bool":
         return [opt_flag(o) if conc else "--no-" + o.name.replace("_", "-")]
     if o.positional:
         return list(conc)
+    if len(conc) == 1 and o.kind.name not in LIST_KINDS and (conc[0].startswith("-") or conc[0] == ""):
+        # argparse takes `-0x10` for an option string: a value with a leading dash travels as --option=value
+        return [opt_flag(o) + "=" + conc[0]]
     return [opt_flag(o)] + list(conc)
 
 
 def lean_field(o: L.Opt) -> str:
-    return o.kind.lean(None if o.const is L.NOCONST else L.canon_val(o.const))
+    return o.kind.lean(None if o.const is L.NOCONST else L.canon_val(o.const), o.positional)
 
 
 class Plan:
@@ -97,6 +103,9 @@ class Plan:
         for o in self.visible:
             if o.required:
                 r = V.valid(o.kind, "cli", rng, self.hi, self.uri_pool)
+                while r is not None and isinstance(r[1], list) and any(isinstance(t, str) and t.startswith("-") for t in r[1]) \
+                        and (o.positional or o.kind.name in LIST_KINDS):
+                    r = V.valid(o.kind, "cli", rng, self.hi, self.uri_pool)
                 if r is not None:
                     self.base[o.name] = cli_args(o, r[1])
         for name, argv in BASE_EXTRA.get(self.path, {}).items():
@@ -128,6 +137,8 @@ class Plan:
 
 
 def sources_of(o: L.Opt) -> list[str]:
+    """providers in priority order (for a positional argument the environment and the file are read as well - and
+    never used)"""
     s = ["cli"]
     if o.env:
         s.append("env")
@@ -136,21 +147,58 @@ def sources_of(o: L.Opt) -> list[str]:
     return s
 
 
+def _dashed(conc) -> bool:
+    return isinstance(conc, list) and any(isinstance(t, str) and t.startswith("-") for t in conc)
+
+
+def same_as_cli(o: L.Opt, src: str, cli):
+    """the provider `src` holding the very text the command line gives: -> (lean_raw, concrete) or None"""
+    raw, conc = cli
+    if raw in ("F",) or o.kind.name == "bool":
+        return None
+    if o.kind.name in LIST_KINDS:
+        if src == "file":
+            return (raw, list(conc))                   # the same list
+        if not conc:
+            return None
+        t = conc[-1]                                   # env: the text of one element (what an element-wise error reports)
+        return ("s:" + L.thex(t), t)
+    if len(conc) != 1:
+        return None
+    return (raw, conc[0])
+
+
 def make_case(plan: Plan, o: L.Opt, combo: dict[str, str], rng) -> dict | None:
-    """combo: source -> 'valid' | 'invalid' | 'flag' (cli bare const); absent = provider silent"""
+    """combo: source -> 'valid' | 'invalid' | 'flag' (cli bare const) | 'same' (the text the command line gives);
+    absent = provider silent"""
     prov = {}
     for src, how in combo.items():
         if how == "flag":
             prov[src] = ("F", [])
             continue
-        gen = V.valid if how == "valid" else V.invalid
-        r = gen(o.kind, src, rng, plan.hi, plan.uri_pool) if how == "valid" else gen(o.kind, src, rng)
+        if how == "same":
+            continue
+        for _ in range(8):
+            r = V.valid(o.kind, src, rng, plan.hi, plan.uri_pool) if how == "valid" else V.invalid(o.kind, src, rng)
+            # positional arguments and list elements cannot start with a dash (argparse reads an option string)
+            if r is None or src != "cli" or not _dashed(r[1]) or not (o.positional or o.kind.name in LIST_KINDS):
+                break
+        else:
+            return None
         if r is None:
             return None
         prov[src] = r
+    for src, how in combo.items():
+        if how == "same":
+            if "cli" not in prov:
+                return None
+            r = same_as_cli(o, src, prov["cli"])
+            if r is None:
+                return None
+            prov[src] = r
     # providers must hand over pairwise different text so that the winner is visible
     texts = [json.dumps(v[1], sort_keys=True, default=str) for v in prov.values()]
-    dflt = None if o.required else L.canon_val(o.default)
+    dflt = None if o.required else L.canon_val_kind(o.default, o.kind)
     case = {
         "cmd": list(plan.path), "opt": o.name, "field": lean_field(o), "kind": o.kind.label(),
         "combo": "-".join(f"{s}:{combo[s]}" for s in SRC_ORDER if s in combo) or "none",
@@ -158,7 +206,8 @@ def make_case(plan: Plan, o: L.Opt, combo: dict[str, str], rng) -> dict | None:
         "cli": list(prov["cli"]) if "cli" in prov else None,
         "env": list(prov["env"]) if "env" in prov else None,
         "file": list(prov["file"]) if "file" in prov else None,
-        "distinct": len(set(texts)) == len(texts),
+        "distinct": len(set(texts)) == len(texts) or "same" in combo.values(),
+        "kname": o.kind.name, "ksub": o.kind.sub,
     }
     cli_part = cli_args(o, prov["cli"][1]) if "cli" in prov and prov["cli"][0] != "F" else ([opt_flag(o)] if "cli" in prov else [])
     case["argv"] = plan.argv_for(o.name, cli_part, provides=bool(prov))
@@ -235,13 +284,23 @@ def real_case(case, tree_parser_builder=None) -> dict:
     res = L.real_parse(parser, argv)
     if res[0] == "ok":
         cfg = res[1]
-        out = {"r": "ok", "val": L.canon_val(getattr(cfg, case["opt"]))}
+        out = {"r": "ok", "val": canon_of(getattr(cfg, case["opt"]), case.get("kname"), case.get("ksub", ""))}
         out.update(reload_config(cmd, cfg))
         return out
     if res[0] == "raise":
         return {"r": "raise", "exc": res[1], "text": res[2]}
     errs = read_error(res[2], case["opt"], "")
     return {"r": "exit", "errs": errs, "text": res[2][-300:]}
+
+
+class _K:
+    def __init__(self, name, sub=""):
+        self.name = name
+        self.sub = sub
+
+
+def canon_of(v, kname, ksub=""):
+    return L.canon_val_kind(v, _K(kname, ksub) if kname else None)
 
 
 def reload_config(cmd, cfg) -> dict:
@@ -272,11 +331,22 @@ def reload_config(cmd, cfg) -> dict:
             if not same:
                 diffs.append([name, L.canon_val(a), L.canon_val(b)])
         out["field_diffs"] = diffs
-        out["stored"] = {k: L.canon_json(v) for k, v in data.items()}
-        out["vals"] = {name: L.canon_val(getattr(cfg, name)) for name in type(cfg).model_fields}
+        kinds = _kinds_of(cmd)
+        out["stored"] = {k: L.canon_json(v, kinds.get(k)) for k, v in data.items()}
+        out["vals"] = {name: L.canon_val_kind(getattr(cfg, name), kinds.get(name)) for name in type(cfg).model_fields}
     except Exception as e:
         out["reload_exc"] = f"{type(e).__name__}: {str(e)[:200]}"
     return out
+
+
+_KINDS: dict = {}
+
+
+def _kinds_of(cmd) -> dict:
+    if cmd not in _KINDS:
+        ct = cmd.CONFIG_TYPE
+        _KINDS[cmd] = {n: L.classify(i.annotation, i.metadata, n, ct) for n, i in ct.model_fields.items()}
+    return _KINDS[cmd]
 
 
 def _run_chunk(chunk):
@@ -290,9 +360,9 @@ def _run_chunk(chunk):
 
 
 def run_real(ctx, cases):
-    if ctx.quick and not ctx.widened or len(cases) < 400:
+    if len(cases) < 400:
         return [real_case(c) for c in cases]
-    n = min(16, os.cpu_count() or 4)
+    n = min(16 if not ctx.quick or ctx.widened else 6, os.cpu_count() or 4)
     chunks = [cases[i::n] for i in range(n)]
     with mp.get_context("fork").Pool(n) as pool:
         parts = pool.map(_run_chunk, chunks)
@@ -337,6 +407,12 @@ def run(ctx):
         check_unprovidable(ctx, plans)
         check_matrix(ctx, plans, rng)
         check_tree(ctx, plans, rng)
+        check_codecs(ctx, plans)
+        check_keys(ctx, plans)
+        check_getvalue(ctx, rng)
+        check_template_doc(ctx, plans)
+        check_discovery(ctx, rng)
+        check_rerun(ctx, plans, rng)
     finally:
         st["sb"].set({}, {})
 
@@ -576,7 +652,7 @@ def check_unprovidable(ctx, plans):
     st["sb"].set({}, {})
     for plan in plans:
         for o in plan.visible:
-            if o.kind.name == UNMODELLED and o.kind.sub.startswith("dict[") and o.required:
+            if o.kind.name == "dict" and o.required:
                 parser = create_parser(plan.cmd)
                 tries = [[], ["a=1"], ['{"a": 1}'], ["a", "1"]]
                 res = [L.real_parse(parser, plan.argv_for(o.name, [opt_flag(o)] + t, True) + (["--ecu", "e"] if "ecu" in plan.by_name else [])) for t in tries]
@@ -595,16 +671,14 @@ def check_unprovidable(ctx, plans):
 
 def combos_for(o: L.Opt):
     srcs = sources_of(o)
-    if o.positional:
-        yield {"cli": "valid"}
-        return
     n = len(srcs)
     for mask in range(1 << n):
         yield {srcs[i]: "valid" for i in range(n) if mask >> i & 1}
 
 
 def invalid_combos_for(o: L.Opt):
-    """the winner is invalid (must be refused, naming it); a loser is invalid (not noticed)"""
+    """the winner is invalid (must be refused, naming it); a loser is invalid (not noticed); a lower provider holds
+    the very text the command line gives (the message then names that provider)"""
     srcs = sources_of(o)
     for i, s in enumerate(srcs):
         lower = srcs[i + 1:]
@@ -612,6 +686,11 @@ def invalid_combos_for(o: L.Opt):
         for lo in lower:
             yield {s: "invalid", lo: "valid"}      # must not fall through to the valid lower provider
             yield {s: "valid", lo: "invalid"}      # the invalid lower value never reaches a validator
+            if s == "cli":
+                yield {s: "invalid", lo: "same"}
+    if len(srcs) == 3:
+        yield {"cli": "invalid", "env": "valid", "file": "same"}    # the environment value hides the equal file value
+        yield {"cli": "invalid", "env": "same", "file": "same"}
 
 
 def check_matrix(ctx, plans, rng):
@@ -646,7 +725,7 @@ def check_matrix(ctx, plans, rng):
                         if c:
                             c["mode"] = "valid"
                             cases.append(c)
-            if not o.positional:
+            if True:
                 for combo in invalid_combos_for(o):
                     if rng.random() > frac_invalid:
                         continue
@@ -676,9 +755,39 @@ def check_matrix(ctx, plans, rng):
         "of {CLI, env, file, default} are reached for every kind")
 
 
+def _nest(key: str, v) -> dict:
+    parts = key.split(".")
+    d = v
+    for p in reversed(parts):
+        d = {p: d}
+    return d
+
+
+def layered_line(case, o: L.Opt) -> str | None:
+    """the same case through `resolveOption`: environment by name, gallia.toml as a document, key from (section, name)"""
+    if o.kind.name in ("opaque", UNMODELLED) or not (o.decl and o.decl["gallia_field"]):
+        return None
+    if case.get("env") and not case["env"][0].startswith("s:"):
+        return None
+    sec = o.decl["section"]
+    doc = _nest(case["key"], case["file"][1]) if case.get("file") else {}
+    g = lambda s: case[s][0] if case.get(s) else "-"  # noqa: E731
+    return (f"opt {case['field']} {'-' if sec is None else 'S:' + L.thex(sec)} {L.thex(o.name)} 1 {g('cli')} {g('env')} "
+            f"{L.tree_tok(doc)} {case['dflt'] or '-'}")
+
+
 def judge(ctx, plans, cases, reals, label):
     by_path = {p.path: p for p in plans}
     out = ctx.lean([model_line(c) for c in cases])
+    # one option through all layers of the model (names, document lookup, resolution) must say the same
+    lay = [(i, layered_line(c, by_path[tuple(c["cmd"])].by_name[c["opt"]])) for i, c in enumerate(cases)]
+    lay = [(i, l) for i, l in lay if l is not None]
+    for (i, line), lo in zip(lay, ctx.lean([l for _, l in lay])):
+        ctx.ev()
+        if lo != " ".join(out[i].split()[:3]):
+            c = cases[i]
+            ctx.disagree(f"layers:{c['kind']}:{c['combo']}", f"{' '.join(c['cmd'])}:{c['opt']}: resolveOption says {lo}, effective on the same providers {out[i]}",
+                         _replay(c), impl=out[i], model=lo, spec_violated=False, site="Model/Config.lean resolveOption")
     rt_lines, rt_meta = [], []
     for case, real, mo in zip(cases, reals, out):
         plan = by_path[tuple(case["cmd"])]
@@ -711,7 +820,8 @@ def judge(ctx, plans, cases, reals, label):
             good = impl[0] == "ok" and impl[1] == m[2]
             mo_show = mo
         elif m[0] == "rej":
-            good = impl[0] == "rej" and impl[1:] == [m[1]] and _names_option(real, o)
+            # every line of the message against the model's list (one line per failing element)
+            good = impl[0] == "rej" and impl[1:] == m[3].split(",") and m[3].split(",")[0] == m[1] and _names_option(real, o)
             mo_show = mo
         elif m[0] == "missing":
             good = impl[0] == "missing" and (opt_flag(o) in impl[1].replace(",", " ").replace("/", " ").split() or o.positional)
@@ -742,7 +852,7 @@ def judge(ctx, plans, cases, reals, label):
                                  site="Rerunner.main / BaseCommand.__init__")
                 # tie of the model's dump / load for the varied field
                 if o.kind.name != UNMODELLED and good and m[0] == "ok" and m[1] != "default":  # defaults are not validated
-                    rt_lines.append(f"rt {case['field']} {m[2]}")
+                    rt_lines.append(f"rt {case['field'].replace('/pos', '')} {m[2]}")
                     rt_meta.append((case, o, real["stored"].get(case["opt"]), real["vals"].get(case["opt"])))
     if rt_lines:
         for (case, o, stored, val), line in zip(rt_meta, ctx.lean(rt_lines)):
@@ -835,15 +945,519 @@ def check_tree(ctx, plans, rng):
     for _ in range(n):
         plan = rng.choice(usable)
         o = rng.choice([o for o in plan.visible if o.kind.name != UNMODELLED and not o.positional])
-        combos = list(combos_for(o))
+        combos = list(combos_for(o)) + list(invalid_combos_for(o))
         c = make_case(plan, o, rng.choice(combos[1:] or combos), rng)
         if c is None or not c["distinct"]:
             continue
-        c["mode"] = "valid"
+        c["mode"] = "invalid" if "invalid" in c["combo"] else "valid"
         cases.append(c)
     reals = [real_case(c, tree_parser_builder=lambda: create_parser(tree)) for c in cases]
     judge(ctx, plans, cases, reals, "tree")
     ctx.exhaustive_parts.append(f"whole-tree parser (create_parser(load_commands())): {len(cases)} seeded cases")
+
+
+# ------------------------------------------------------------------------------------------------------------------
+# H. text codecs on all short strings: pydantic's lax int, int(x, 16)
+# ------------------------------------------------------------------------------------------------------------------
+
+def _adapter(plans, path, name):
+    from typing import Annotated
+
+    from pydantic import TypeAdapter
+
+    plan = next(p for p in plans if p.path == path)
+    info = plan.cmd.CONFIG_TYPE.model_fields[name]
+    return TypeAdapter(Annotated[info.annotation, *info.metadata] if info.metadata else info.annotation)
+
+
+def check_codecs(ctx, plans):
+    import itertools
+
+    n = ctx.pick(4, 5)
+    jobs = [("lax", ("scan", "uds", "sessions"), "max_retries", "019_+-. x\te", "int"),
+            ("hexint", ("primitive", "uds", "dtc", "read"), "mask", "01aF_xX+- g", "hexInt")]
+    for op, path, name, alpha, kname in jobs:
+        try:
+            ta = _adapter(plans, path, name)
+        except StopIteration:
+            ctx.disagree(f"codec-anchor:{' '.join(path)}:{name}", f"{' '.join(path)} --{name} is gone", {}, spec_violated=False)
+            continue
+        texts = ["".join(t) for k in range(n + 1) for t in itertools.product(alpha, repeat=k)]
+        out = ctx.lean([f"{op} {L.thex(t) or '-'}" for t in texts])
+        bad = 0
+        for t, mo in zip(texts, out):
+            try:
+                v = ta.validate_python(t)
+                impl = str(v)
+            except Exception:  # noqa: BLE001
+                impl = "none"
+            ctx.ev()
+            if impl != "none":
+                ctx.nontrivial((op, t))
+            if impl != mo:
+                bad += 1
+                if bad <= 3:
+                    # shortest disagreeing text first (the enumeration is by length)
+                    ctx.disagree(f"codec:{kname}:{t!r}", f"{kname} field given the text {t!r}: implementation {impl}, model {mo}",
+                                 {"kind": kname, "text": t, "option": " ".join(path) + ":" + name}, impl=impl, model=mo,
+                                 spec_violated=(impl != "none" and mo != "none"), site="command/config.py / pydantic lax int")
+        ctx.kind(f"codec:{kname}")
+        ctx.dist[f"codec:{kname}"] = len(texts)
+        ctx.exhaustive_parts.append(f"{kname} text codec: all {len(texts)} strings of length <= {n} over {alpha!r} through the validator of "
+                                    f"{' '.join(path)} --{name}")
+
+
+# ------------------------------------------------------------------------------------------------------------------
+# I. names: GALLIA_<NAME> and <section>.<name> as the code really looks them up
+# ------------------------------------------------------------------------------------------------------------------
+
+def check_keys(ctx, plans):
+    from unittest import mock
+
+    from gallia.config import Config
+
+    class Rec(Config):
+        def __init__(self):
+            super().__init__()
+            self.asked = []
+
+        def get_value(self, key, default=None):
+            self.asked.append(key)
+            return None
+
+    lines, meta = [], []
+    for plan in plans:
+        rec = Rec()
+        plan.cmd.CONFIG_TYPE.attributes_from_config(rec)
+        asked_env = []
+        with mock.patch("os.getenv", side_effect=lambda k, d=None: asked_env.append(k)):
+            plan.cmd.CONFIG_TYPE.attributes_from_env()
+        for o in plan.opts:
+            if o.hidden or not (o.decl and o.decl["gallia_field"]):
+                continue
+            sec = o.decl["section"]
+            lines.append(f"key {'-' if sec is None else 'S:' + L.thex(sec)} {L.thex(o.name)}")
+            meta.append((plan, o, set(rec.asked), set(asked_env)))
+    for (plan, o, asked, asked_env), mo in zip(meta, ctx.lean(lines)):
+        k, e = mo.split()
+        mkey = None if k == "-" else bytes.fromhex(k).decode()
+        menv = bytes.fromhex(e).decode()
+        ctx.ev()
+        real_key = next((a for a in asked if a.rpartition(".")[2] == o.name), None)
+        real_env = next((a for a in asked_env if a == f"GALLIA_{o.name.upper()}"), None)
+        if mkey != real_key:
+            ctx.disagree(f"file-key:{decl_class(o)}.{o.name}", f"{o.ident}: gallia.toml key looked up is {real_key!r}, the declared section gives {mkey!r}",
+                         {"cmd": list(plan.path), "opt": o.name, "section": o.decl["section"]}, impl=real_key, model=mkey,
+                         spec_violated=True, site="GalliaBaseModel.attributes_from_config")
+        if menv != real_env and not metadata_lost(o):
+            ctx.disagree(f"env-name:{decl_class(o)}.{o.name}", f"{o.ident}: environment variable looked up is {real_env!r}, expected {menv!r}",
+                         {"cmd": list(plan.path), "opt": o.name}, impl=real_env, model=menv, spec_violated=True,
+                         site="GalliaBaseModel.attributes_from_env")
+    ctx.dist["names:key+env"] = len(lines)
+    ctx.exhaustive_parts.append(f"names: configKey(section, name) and GALLIA_<NAME> of all {len(lines)} configurable option/command pairs vs the "
+                                "keys / variables the code asks for")
+
+
+# ------------------------------------------------------------------------------------------------------------------
+# J. Config.get_value on generated documents
+# ------------------------------------------------------------------------------------------------------------------
+
+_GV_KEYS = ["a", "b", "gallia", "scanner", "x.y", ""]
+_GV_LEAVES = [0, False, "", 1, -7, True, "s", 1.5, [1, "a"], [], ["x"], {}]
+
+
+def _gen_doc(rng, depth=0):
+    d = {}
+    for k in rng.sample(_GV_KEYS, rng.randrange(0, 5)):
+        if depth < 3 and rng.random() < 0.45:
+            d[k] = _gen_doc(rng, depth + 1)
+        else:
+            d[k] = rng.choice(_GV_LEAVES)
+    return d
+
+
+def _paths(d, pre=()):
+    for k, v in d.items():
+        yield pre + (k,)
+        if isinstance(v, dict):
+            yield from _paths(v, pre + (k,))
+
+
+def check_getvalue(ctx, rng):
+    from gallia.config import Config
+
+    lines, meta = [], []
+    for _ in range(ctx.pick(250, 2500)):
+        doc = _gen_doc(rng)
+        keys = set()
+        ps = list(_paths(doc))
+        for p in rng.sample(ps, min(len(ps), 4)):
+            keys.add(".".join(p))                              # an existing path (to a value or to a table)
+            keys.add(".".join(p + (rng.choice(_GV_KEYS),)))      # one step further: through a value / to a missing entry
+        keys.add(".".join(rng.choice(_GV_KEYS) for _ in range(rng.randrange(1, 4))))
+        keys.add(rng.choice(["", ".", "a.", ".a", "a..b"]))
+        for k in sorted(keys):
+            lines.append(f"gv {L.tree_tok(doc)} {L.thex(k) or '-'}")
+            meta.append((doc, k))
+    for (doc, k), mo in zip(meta, ctx.lean(lines)):
+        v = Config(doc).get_value(k)
+        impl = "none" if v is None else L.tree_tok(v)
+        ctx.ev()
+        ctx.kind("get_value:" + ("absent" if v is None else "table" if isinstance(v, dict) else "falsy" if not v else "value"))
+        if v is not None:
+            ctx.nontrivial(("gv", L.tree_tok(doc), k))
+        if impl != mo:
+            ctx.disagree(f"get-value:{'falsy' if (mo != 'none' and impl == 'none') else 'other'}:{k!r}",
+                         f"Config.get_value({k!r}) on {doc!r}: implementation {v!r}, model {mo}", {"doc": doc, "key": k}, impl=impl, model=mo,
+                         spec_violated=(mo != "none" and impl == "none"), site="config.Config.get_value")
+    ctx.exhaustive_parts.append(f"Config.get_value: {len(lines)} (document, dotted key) pairs: existing paths, paths through values, to tables, "
+                                "missing, empty parts; falsy values 0 / false / '' / [] / {} among the leaves")
+
+
+# ------------------------------------------------------------------------------------------------------------------
+# K. the template as a document
+# ------------------------------------------------------------------------------------------------------------------
+
+def check_template_doc(ctx, plans):
+    from pydantic_core import PydanticUndefined
+
+    from gallia.command.config import GalliaBaseModel
+    from gallia.config import Config
+
+    text, tkeys = template_keys()
+    reg = GalliaBaseModel.registry()
+    entries = []
+    for k in reg:
+        dv = reg[k][1]
+        if dv is None or dv is PydanticUndefined:
+            entries.append(f"{L.thex(k)}=-")
+            continue
+        try:
+            shown = json.loads(json.dumps(dv))
+        except TypeError:
+            shown = str(dv)
+        entries.append(f"{L.thex(k)}={L.tree_tok(shown)}")
+    mo = ctx.lean(["tmpl " + ("|".join(entries) or "-")])[0]
+    tree, pf = mo.split()
+    ctx.ev()
+    try:
+        parsed = tomllib.loads(text)
+    except tomllib.TOMLDecodeError:
+        return  # reported by check_template
+    model_doc = L.untree(tree)
+    if pf != "pf:1":
+        ctx.disagree("template-keys-not-prefix-free", "a registered key is a prefix of another one: the template cannot hold both",
+                     {"keys": sorted(reg)}, impl=sorted(reg), model="prefix free", spec_violated=True, site="GalliaBaseModel.registry")
+    if model_doc != parsed:
+        diff = sorted(k for k in reg if Config(parsed).get_value(k) != Config(model_doc).get_value(k))
+        ctx.disagree(f"template-doc:{diff[0] if diff else '?'}", f"--template parsed back differs from the template document of the registry at {diff[:5]}",
+                     {"keys": diff[:10], "template": text[:600]}, impl=json.dumps(parsed, default=str)[:600], model=json.dumps(model_doc, default=str)[:600],
+                     spec_violated=bool(diff), site="cli.gallia.template")
+    # lookup of every listed key in the parsed template vs in the model's document
+    lines = [f"gv {tree} {L.thex(k)}" for k in reg]
+    for k, mo2 in zip(reg, ctx.lean(lines)):
+        v = Config(parsed).get_value(k)
+        impl = "none" if v is None else L.tree_tok(v)
+        ctx.ev()
+        dv = reg[k][1]
+        want_some = dv is not None and dv is not PydanticUndefined
+        if impl != mo2 or (want_some and impl == "none"):
+            ctx.disagree(f"template-roundtrip:{k}", f"key {k!r} written by --template (default {dv!r}) reads back as {v!r}, model {mo2}",
+                         {"key": k, "default": repr(dv)}, impl=impl, model=mo2, spec_violated=True, site="cli.gallia.template / Config.get_value")
+    ctx.exhaustive_parts.append(f"--template output parsed back (tomllib) = template document of the registry ({len(reg)} keys), every key looked up in both")
+
+
+# ------------------------------------------------------------------------------------------------------------------
+# L. which gallia.toml is picked: real directory trees
+# ------------------------------------------------------------------------------------------------------------------
+
+def _fake_git(d):
+    g = os.path.join(d, ".git")
+    os.makedirs(os.path.join(g, "objects"), exist_ok=True)
+    os.makedirs(os.path.join(g, "refs"), exist_ok=True)
+    with open(os.path.join(g, "HEAD"), "w") as f:
+        f.write("ref: refs/heads/main\n")
+
+
+def check_discovery(ctx, rng):
+    import itertools
+    import shutil
+    import tempfile
+    from pathlib import Path
+
+    from gallia import config as gc
+
+    root = os.path.realpath(tempfile.mkdtemp(prefix="c18d-", dir="/var/tmp"))
+    saved_env = {k: os.environ.get(k) for k in ("HOME", "XDG_CONFIG_HOME", "GIT_CEILING_DIRECTORIES", "GALLIA_CONFIG", "GIT_DIR", "GIT_WORK_TREE")}
+    saved_cwd = os.getcwd()
+    try:
+        d2 = os.path.join(root, "work")
+        d1 = os.path.join(d2, "proj")
+        d0 = os.path.join(d1, "sub")
+        chain = [d0, d1, d2]
+        home, xdg = os.path.join(root, "home"), os.path.join(root, "xdg")
+        extra = [os.path.join(root, "extra0"), os.path.join(root, "extra1")]
+        envfile = os.path.join(root, "envcfg", "my.toml")
+        for d in chain + [os.path.join(home, ".config", "gallia"), os.path.join(xdg, "gallia"), os.path.dirname(envfile)] + extra:
+            os.makedirs(d, exist_ok=True)
+        os.environ["HOME"] = home
+        os.environ["GIT_CEILING_DIRECTORIES"] = root
+        for k in ("GIT_DIR", "GIT_WORK_TREE"):
+            os.environ.pop(k, None)
+        os.chdir(d0)
+        user_toml = {True: os.path.join(xdg, "gallia", "gallia.toml"), False: os.path.join(home, ".config", "gallia", "gallia.toml")}
+
+        worlds = list(itertools.product(itertools.product([0, 1], repeat=3), itertools.product([0, 1], repeat=3), [0, 1], [0, 1], [0, 1], "uem",
+                                        ["-", "0", "1", "01", "10", "11"]))
+        if ctx.quick and not ctx.widened:
+            # every git placement x every gallia.toml placement with the user dirs / env / extra drawn, plus a seeded sample
+            pick = [w for w in worlds if w[5] == "u" and w[6] == "-" and w[2:5] == (1, 1, 0)]
+            rest = [w for w in worlds if w not in set(pick)]
+            worlds = pick + rng.sample(rest, 90)
+        lines, meta = [], []
+        cur_git = None
+        worlds.sort(key=lambda w: w[0])
+        for gits, tomls, xs, xt, ht, ev, ex in worlds:
+            if gits != cur_git:
+                for d, g in zip(chain, gits):
+                    shutil.rmtree(os.path.join(d, ".git"), ignore_errors=True)
+                    if g:
+                        _fake_git(d)
+                cur_git = gits
+            for d, t in zip(chain, tomls):
+                p = os.path.join(d, "gallia.toml")
+                if t:
+                    Path(p).write_text("")
+                elif os.path.exists(p):
+                    os.unlink(p)
+            for flag, p in ((xt, user_toml[True]), (ht, user_toml[False])):
+                if flag:
+                    Path(p).write_text("")
+                elif os.path.exists(p):
+                    os.unlink(p)
+            if xs:
+                os.environ["XDG_CONFIG_HOME"] = xdg
+            else:
+                os.environ.pop("XDG_CONFIG_HOME", None)
+            extras = []
+            for i, c in enumerate("" if ex == "-" else ex):
+                p = os.path.join(extra[i], "gallia.toml")
+                if c == "1":
+                    Path(p).write_text("")
+                elif os.path.exists(p):
+                    os.unlink(p)
+                extras.append(Path(extra[i]))
+            if os.path.exists(envfile):
+                os.unlink(envfile)
+            if ev == "u":
+                os.environ.pop("GALLIA_CONFIG", None)
+            else:
+                os.environ["GALLIA_CONFIG"] = envfile
+                if ev == "e":
+                    Path(envfile).write_text("")
+            try:
+                got = gc.search_config(extra_paths=extras or None)
+                impl = "nothing" if got is None else "file " + str(got)
+            except FileNotFoundError:
+                impl = "notfound"
+            dirs = [str(p) for p in gc.get_config_dirs()]
+            lines.append("disc " + ",".join(("g" if g else "-") + ("t" if t else "-") for g, t in zip(gits, tomls)) + f" {ev} {xs} {xt} {ht} {ex}")
+            meta.append((impl, dirs, (gits, tomls, xs, xt, ht, ev, ex)))
+
+        def place(tok, xs):
+            if tok == "env":
+                return envfile
+            if tok.startswith("up:"):
+                return os.path.join(chain[int(tok[3:])], "gallia.toml")
+            if tok == "user":
+                return user_toml[bool(xs)]
+            return os.path.join(extra[int(tok[6:])], "gallia.toml")
+
+        for (impl, dirs, w), mo in zip(meta, ctx.lean(lines)):
+            parts = mo.split()
+            cands = parts[-1].split(",")
+            res = parts[0] if parts[0] != "file" else "file " + place(parts[1], w[2])
+            mdirs = [os.path.dirname(place(c, w[2])) for c in cands if not c.startswith("extra")]
+            ctx.ev()
+            ctx.kind("discovery:" + (parts[1].split(":")[0] if parts[0] == "file" else parts[0]))
+            ctx.nontrivial(("disc",) + tuple(map(str, w)))
+            ctx.traces_validated += 1
+            if impl != res or dirs != mdirs:
+                gits, tomls, xs, xt, ht, ev, ex = w
+                ctx.disagree(f"discovery:git={''.join(map(str, gits))}:toml={''.join(map(str, tomls))}:xdg={xs}{xt}{ht}:env={ev}:extra={ex}",
+                             f"search_config() with .git in {gits}, gallia.toml in {tomls} (cwd, parent, grandparent), XDG_CONFIG_HOME {'set' if xs else 'unset'} "
+                             f"(xdg file {xt}, ~/.config file {ht}), GALLIA_CONFIG {ev}, extra {ex}: implementation {impl.replace(root, '')} dirs "
+                             f"{[d.replace(root, '') for d in dirs]}, model {res.replace(root, '')} dirs {[d.replace(root, '') for d in mdirs]}",
+                             {"git": gits, "toml": tomls, "xdg_set": xs, "xdg_toml": xt, "home_toml": ht, "env": ev, "extra": ex},
+                             impl=[impl.replace(root, ""), [d.replace(root, "") for d in dirs]], model=[res.replace(root, ""), [d.replace(root, "") for d in mdirs]],
+                             spec_violated=True, site="config.search_config / get_config_dirs / get_git_root")
+        ctx.exhaustive_parts.append(f"config file discovery on a real directory tree (cwd / parent / grandparent, fake .git directories, HOME, "
+                                    f"XDG_CONFIG_HOME, GALLIA_CONFIG, extra_paths): {len(lines)} worlds" +
+                                    ("" if ctx.quick and not ctx.widened else " = every combination"))
+    finally:
+        os.chdir(saved_cwd)
+        for k, v in saved_env.items():
+            if v is None:
+                os.environ.pop(k, None)
+            else:
+                os.environ[k] = v
+        shutil.rmtree(root, ignore_errors=True)
+
+
+# ------------------------------------------------------------------------------------------------------------------
+# M. the stored configuration through `gallia script rerun`'s own code (META.json and run_meta in the database)
+# ------------------------------------------------------------------------------------------------------------------
+
+def _rerun(cmd, cfg, tmp, tag):
+    """-> {'file': cfg' | exception text, 'db': ...}: what Rerunner.main() hands to the command's entry point"""
+    import asyncio
+    from datetime import UTC, datetime
+    from pathlib import Path
+    from unittest import mock
+
+    from gallia.commands.script.rerun import Rerunner, RerunnerConfig
+    from gallia.db.handler import DBHandler
+
+    target = cmd(cfg)
+    meta_path = Path(tmp) / f"META-{tag}.json"
+    meta_path.write_text(target.run_meta.json() + "\n")            # what entry_point() writes into the artifacts dir
+    db_path = Path(tmp) / f"run-{tag}.db"
+    seen = {}
+
+    async def fake_entry_point(self):
+        seen["cfg"] = self.config
+        return 0
+
+    async def go():
+        out = {}
+        h = DBHandler(db_path)
+        await h.connect()
+        await h.insert_run_meta(script=target.run_meta.command, config=cfg, start_time=datetime.now(UTC).astimezone(), path=None)
+        rid = h.meta
+        await h.disconnect()
+        for how in ("file", "db"):
+            seen.clear()
+            r = Rerunner(RerunnerConfig(file=meta_path) if how == "file" else RerunnerConfig(id=rid, db=db_path))
+            try:
+                if how == "db":
+                    r.db_handler = DBHandler(db_path)
+                    await r.db_handler.connect()
+                with mock.patch.object(cmd, "entry_point", fake_entry_point):
+                    try:
+                        await r.main()
+                        out[how] = "main() returned"
+                    except SystemExit as e:
+                        out[how] = seen.get("cfg", f"exit {e.code} before the entry point")
+            except Exception as e:  # noqa: BLE001
+                out[how] = f"{type(e).__name__}: {str(e)[:160]}"
+            finally:
+                if how == "db" and r.db_handler is not None:
+                    await r.db_handler.disconnect()
+        return out
+
+    return asyncio.run(go())
+
+
+def _cfg_equal(a, b):
+    from gallia.transports import TargetURI
+
+    if a.model_dump_json() != b.model_dump_json() or type(a) is not type(b) and not isinstance(b, type(a).__mro__[1]):
+        pass
+    diffs = []
+    for name in type(a).model_fields:
+        x, y = getattr(a, name), getattr(b, name, None)
+        same = (x.raw == y.raw and type(x) is type(y)) if isinstance(x, TargetURI) and isinstance(y, TargetURI) else x == y
+        if not same:
+            diffs.append(name)
+    if not diffs and a.model_dump_json() != b.model_dump_json():
+        diffs.append("<dump>")
+    return diffs
+
+
+def check_rerun(ctx, plans, rng):
+    import shutil
+    import tempfile
+
+    from gallia.cli.gallia import create_parser
+
+    st = _worker_state()
+    st["sb"].set({}, {})
+    tmp = tempfile.mkdtemp(prefix="c18r-", dir="/var/tmp")
+    rounds = ctx.pick(1, 4)
+    lines, meta = [], []
+    try:
+        jobs = []
+        for plan in plans:
+            if plan.unusable:
+                continue
+            parser = create_parser(plan.cmd)
+            for r in range(rounds):
+                # the base line plus a few more options given on the command line
+                argv_extra, varied = [], []
+                cand = [o for o in plan.visible if not o.positional and o.name not in plan.base and o.kind.name not in (UNMODELLED, "dict")
+                        and not (XOR.get(plan.path) and o.name in XOR[plan.path][:2])]
+                for o in rng.sample(cand, min(len(cand), rng.randrange(0, 5))):
+                    v = V.valid(o.kind, "cli", rng, plan.hi, plan.uri_pool)
+                    if v is None or (_dashed(v[1]) and o.kind.name in LIST_KINDS):
+                        continue
+                    argv_extra += cli_args(o, v[1])
+                    varied.append(o.name)
+                res = L.real_parse(parser, plan.argv_for("", [], False) + argv_extra)
+                if res[0] != "ok":
+                    res = L.real_parse(parser, plan.argv_for("", [], False))     # cross-field validators: fall back to the base line
+                    varied = []
+                if res[0] == "ok":
+                    jobs.append((plan, res[1], varied))
+        # dict[str, Any] cannot come from the command line (known finding): a config built through the API
+        dbv = next((p for p in plans if p.path == ("script", "vecu", "db")), None)
+        if dbv is not None:
+            try:
+                jobs.append((dbv, dbv.cmd.CONFIG_TYPE(target="tcp://127.0.0.1:20162", path="/var/tmp/x.db", ecu="ecu0",
+                                                      properties={"a": 1, "b": {"c": [1, 2], "d": None}, "e": "x", "f": [], "g": True}), ["properties"]))
+                jobs.append((dbv, dbv.cmd.CONFIG_TYPE(target="tcp://127.0.0.1:20162", path="/var/tmp/x.db", ecu=None, properties=None), ["properties"]))
+            except Exception as e:  # noqa: BLE001
+                ctx.disagree("rerun-api-config:script vecu db", f"DbVirtualECUConfig cannot be built through the API: {e!r}", {}, spec_violated=False)
+        for i, (plan, cfg, varied) in enumerate(jobs):
+            got = _rerun(plan.cmd, cfg, tmp, str(i))
+            ctx.ev(2)
+            ctx.traces_validated += 2
+            ctx.kind("rerun:" + " ".join(plan.path))
+            ctx.nontrivial(("rerun", plan.path, cfg.model_dump_json()))
+            case = {"cmd": list(plan.path), "config": json.loads(cfg.model_dump_json()), "given": varied}
+            for how in ("file", "db"):
+                g = got[how]
+                src = "META.json" if how == "file" else "run_meta in the database"
+                if isinstance(g, str):
+                    ctx.disagree(f"rerun-raises:{how}:{' '.join(plan.path)}", f"gallia script rerun from {src} of `{' '.join(plan.path)}`: {g}", case,
+                                 impl=g, model="equal configuration", spec_violated=True, site="Rerunner.main")
+                    continue
+                diffs = _cfg_equal(cfg, g)
+                if diffs:
+                    od = plan.by_name.get(diffs[0])
+                    ctx.disagree(f"rerun-differs:{how}:{decl_class(od) if od else '?'}.{diffs[0]}",
+                                 f"gallia script rerun from {src} of `{' '.join(plan.path)}` re-creates {diffs[0]} = "
+                                 f"{getattr(g, diffs[0], None)!r} instead of {getattr(cfg, diffs[0], None)!r}", case, impl=diffs,
+                                 model="equal configuration", spec_violated=True, site="Rerunner.main")
+            # the model's store / reload over the whole configuration
+            kinds = _kinds_of(plan.cmd)
+            toks = []
+            for name in type(cfg).model_fields:
+                k = kinds[name]
+                if k.name == UNMODELLED:
+                    continue
+                toks += [L.thex(name), k.lean(None, False), L.canon_val_kind(getattr(cfg, name), k)]
+            lines.append("rs " + " ".join(toks))
+            meta.append((plan, case))
+        for (plan, case), mo in zip(meta, ctx.lean(lines)):
+            ctx.ev()
+            if mo != "ok":
+                ctx.disagree(f"reload-model:{' '.join(plan.path)}:{mo}", f"model: reload (store cfg) of `{' '.join(plan.path)}` is {mo}", case, impl="equal",
+                             model=mo, spec_violated=False, site="Model/Config.lean store / reload")
+    finally:
+        shutil.rmtree(tmp, ignore_errors=True)
+    ctx.exhaustive_parts.append(f"stored configuration through Rerunner.main(): {len(meta)} accepted configurations of {len({m[0].path for m in meta})} commands, each "
+                                "written as META.json (RunMeta.json) and into run_meta (DBHandler.insert_run_meta) and re-created from both; the "
+                                "model's reload (store cfg) on the same configurations")
 
 
 def replay(ctx, case):
